@@ -381,6 +381,32 @@ func teSpanRejected(s teSpan) bool {
 	return false
 }
 
+// the first attribute that cannot be converted is a KeyValue without AnyValue
+func teSpanNoValueFirst(s teSpan) bool {
+	for _, a := range s.attrs {
+		switch a.kind {
+		case 'y', 'z':
+			return false
+		case 'n':
+			return true
+		}
+	}
+	return false
+}
+
+func teReqHasNoValue(rq teReq) bool {
+	for _, rs := range rq.res {
+		for _, sc := range rs.scopes {
+			for _, s := range sc {
+				if teSpanNoValueFirst(s) {
+					return true
+				}
+			}
+		}
+	}
+	return false
+}
+
 func teSpanCollides(s teSpan) bool {
 	for _, a := range s.attrs {
 		if teCollide[a.key] {
@@ -437,7 +463,11 @@ func teJudge(op *teOp, w *teWorkerOut, v *teView) (fails []PropFail, tags []stri
 	wantStored := 0
 	for ri, rq := range op.reqs {
 		if ri < len(w.Acks) && w.Acks[ri].Panic != "" {
-			fail("trace-ingest/panic", "request %d: %s", ri, w.Acks[ri].Panic)
+			if teReqHasNoValue(rq) {
+				fail("trace-ingest/attribute-without-value-panics", "request %d carries a span attribute (KeyValue) without a value: ProcessTraceIngest panics: %s", ri, w.Acks[ri].Panic)
+			} else {
+				fail("trace-ingest/panic", "request %d: %s", ri, w.Acks[ri].Panic)
+			}
 			continue
 		}
 		if rq.raw {
@@ -480,8 +510,8 @@ func teJudge(op *teOp, w *teWorkerOut, v *teView) (fails []PropFail, tags []stri
 						if c.svc == nil {
 							continue
 						}
-						if ownNamed && *c.svc == own {
-							good = true
+						if ownNamed && (*c.svc == own || (rs.spec[0] == 't' && *c.svc == "s"+strings.Split(rs.spec[1:], "_")[0])) {
+							good = true // two service.name attributes in one resource: either of the two names is granted
 						}
 						if !ownNamed && (*c.svc == "" || !named[*c.svc]) {
 							good = true
@@ -879,11 +909,11 @@ func teValid(op *teOp) bool {
 			case teSkipCols[a.key] || a.key == "trace_id":
 				return false
 			case a.key == "start_time" || a.key == "end_time" || a.key == "duration":
-				if !(a.kind == 'y' || a.kind == 'z' || (a.kind == 'i' && a.i >= 0)) {
+				if !(a.kind == 'y' || a.kind == 'z' || a.kind == 'n' || (a.kind == 'i' && a.i >= 0)) {
 					return false
 				}
 			case teCollide[a.key]:
-				if !(a.kind == 'y' || a.kind == 'z' || a.kind == 's') {
+				if !(a.kind == 'y' || a.kind == 'z' || a.kind == 'n' || a.kind == 's') {
 					return false
 				}
 			}
@@ -991,7 +1021,16 @@ func teTags(op *teOp) []string {
 			}
 		}
 	}
-	tags = append(tags, fmt.Sprintf("resources/request<=%d", nres))
+	switch {
+	case nres <= 1:
+		tags = append(tags, "resources/request=1")
+	case nres <= 3:
+		tags = append(tags, "resources/request 2..3")
+	case nres <= 6:
+		tags = append(tags, "resources/request 4..6")
+	default:
+		tags = append(tags, "resources/request>=7")
+	}
 	if unnamedAfterNamed {
 		tags = append(tags, "resource-without-service-after-named-one")
 	}
@@ -1010,6 +1049,12 @@ func teTags(op *teOp) []string {
 		tags = append(tags, "spans>100")
 	}
 	rej, col, wrap := false, false, false
+	for _, rq := range op.reqs {
+		if !rq.raw && teReqHasNoValue(rq) {
+			tags = append(tags, "attribute-without-value")
+			break
+		}
+	}
 	for _, s := range recs {
 		rej = rej || teSpanRejected(s)
 		col = col || teSpanCollides(s)
@@ -1174,8 +1219,13 @@ func (g *teGen) attrs() []teAttr {
 			a.kind = 'm'
 		case x < 37:
 			a.kind = 'y'
-		case x < 39:
+		case x < 38:
 			a.kind = 'z'
+		case x < 39:
+			if g.r.Intn(4) != 0 {
+				continue
+			}
+			a.kind = 'n' // a KeyValue without AnyValue (rare)
 		default: // a key that is also a span field
 			switch r.Intn(4) {
 			case 0:
@@ -1452,6 +1502,25 @@ func genTraceE2E(r *rand.Rand, n int, tier string) []string {
 		fmt.Sprintf("te 1000 0 o:s1/%[1]s.01.-.a.%[2]d.%[3]d.1.-,%[4]s.02.-.b.%[2]d.%[3]d.1.-;s2/%[5]s.03.-.a.%[2]d.%[6]d.1.-,%[7]s.04.-.b.%[2]d.%[6]d.1.-", T(6), R, R+7300000, T(7), T(8), R+1900000, T(9)),
 		"te 1000 0 o:s1",
 		"te 1000 0 o:n/-",
+		// malformed op lines: both sides answer bad-op
+		"te 0 0 o:s1",
+		"te 1000 0 x:s1",
+		"te 1000 0 o:q1/-",
+		fmt.Sprintf("te 1000 0 o:s1/%s.0g.-.root.%d.%d.1.-", T(10), R, R+5),
+		fmt.Sprintf("te 1000 0 o:s1/%s.01.-.root.%d.%d.1.timestamp=i5", T(10), R, R+5),
+		fmt.Sprintf("te 1000 0 o:s1/%s.01.-.root.%d.%d.1.name=i5", T(10), R, R+5),
+		fmt.Sprintf("te 1000 0 o:s1/%s.01.-.root.0%d.%d.1.-", T(10), R, R+5),
+		fmt.Sprintf("te 1000 0 r:%s.01.-.s1.root.%d.%d", T(10), R, R+5),
+	}
+	{ // one trace larger than the real page in EVERY run: 1001..1100 spans, three of its 6..9 batches delivered twice
+		nsp := 1001 + r.Intn(100)
+		spans := g.forest(T(11), nsp, 1, 8, 2)
+		for i := range spans {
+			spans[i].attrs = nil
+		}
+		reqs := g.split(spans, 6+r.Intn(4))
+		reqs = append(reqs, reqs[0], reqs[len(reqs)/2], reqs[len(reqs)-1])
+		out = append(out, teLine(1000, 0, reqs))
 	}
 	tid := 100
 	newTrace := func() string { tid++; return T(tid) }
